@@ -137,6 +137,11 @@ def run_case(spec):
       return done()
     lo, es, up = (np.asarray(df_[k], dtype=float) for k in ('lower', 'estimate', 'upper'))
     if np.any(np.isnan(lo)) or np.any(np.isnan(es)) or np.any(np.isnan(up)):
+      if float(np.ptp(y_pre)) == 0.0 or (ref is not None and ref.sigma2 == 0.0):
+        # zero residual variance in the pre-period (e.g. constant integer costs): the posterior scale is 0 and its
+        # quantiles are undefined; outside the non-degenerate inputs the statement is about
+        counters['zero_variance_inputs'] += 1
+        return done(False)
       add('nan', 'series-nan:' + name, '%s contains NaN' % name)
       return done()
     if np.any(lo > es) or np.any(es > up):
